@@ -11,16 +11,38 @@
 //!   * a second round on what remains.
 //! Everything is derived from the session number (reproducible, independent of VERIF_SEED); how often the chosen
 //! alternative really pushed out other text is counted by the oracle (`c02_auto_commits_alt_pushes_out_other_text_*`).
+//!
+//! Second family (the sessions after those, `Script::wordless`): regression histories for the shape the thorough
+//! tier found in generated histories (seed 1 sessions 638, 1056, 1322, 2235, 2285, 3331, 3448, 3621) — a syllable
+//! that LOST ITS ONLY WORD while it is in the buffer (a user-only word learnt, the syllable typed between neighbours
+//! that have words, the word forgotten again) is shown and committed as its Bopomofo spelling (2..4 characters for one
+//! symbol), and a GLUE mark (Tab in the middle of the buffer) makes the engine merge that spelling with the
+//! neighbour's character into ONE interval of two symbols; then every commit route (overflow by a key, by `select`,
+//! by Tab at the end, Enter, `commit()`), optionally after an engine switch.  Counted by the oracle:
+//! `c02_wordless_spelling_inside_longer_interval`.
 use crate::script_c18::base_opts;
 use crate::Op;
-use chewing::editor::keyboard::{KeyCode, Modifiers};
+use chewing::editor::keyboard::{KeyCode, KeyboardLayout, Modifiers, Qwerty};
+use chewing::editor::zhuyin_layout::{KeyBehavior, Standard, SyllableEditor};
 use chewing::zhuyin::Syllable;
 use std::collections::VecDeque;
 use vharness::Rng;
 
-pub fn n_sessions(thorough: bool) -> u64 {
+/// sessions of the first family (crossing phrases + Tab + overflow)
+fn n_crossing(thorough: bool) -> u64 {
     if thorough { 3000 } else { 240 }
 }
+
+pub fn n_sessions(thorough: bool) -> u64 {
+    n_crossing(thorough) + if thorough { 1200 } else { 120 }
+}
+
+/// Standard-layout key sequences of syllables OUTSIDE the pool: the session's generated system layers hold no word
+/// for them, a word learnt for one of them is its only word (spellings of 2, 2, 2, 2, 2 and 3 characters)
+const EXTRA: [&[KeyCode]; 6] = {
+    use KeyCode::*;
+    [&[P, N7], &[Comma, N4], &[B, N6], &[M, N3], &[I, Space], &[T, J, N4]]
+};
 
 pub struct Script {
     queue: VecDeque<Op>,
@@ -35,7 +57,137 @@ const SINGLE: [&str; 5] = ["心", "酷", "音", "哈", "囉"];
 const CROSS: [(&str, &str); 3] = [("新酷", "庫音"), ("星光", "廣場"), ("甲乙", "丙丁")];
 
 impl Script {
-    pub fn new(sid: u64, _thorough: bool, pool: &[(Syllable, Vec<KeyCode>)]) -> Script {
+    pub fn new(sid: u64, thorough: bool, pool: &[(Syllable, Vec<KeyCode>)]) -> Script {
+        if sid >= n_crossing(thorough) {
+            return Script::wordless(sid - n_crossing(thorough), pool);
+        }
+        Script::crossing(sid, pool)
+    }
+
+    /// a word-less syllable, spelled out, glued to a neighbour, then a commit route (see the module comment)
+    fn wordless(k: u64, pool: &[(Syllable, Vec<KeyCode>)]) -> Script {
+        use KeyCode::*;
+        let mut rng = Rng::new(0xC02F_u64.wrapping_mul(1_000_003).wrapping_add(k));
+        let mut q = VecDeque::new();
+        q.push_back(Op::SetLayout(0));
+        let engine = *rng.pick(&[1u8, 1, 1, 2, 2, 0]);
+        q.push_back(Op::SetEngine(engine));
+        let mut o = base_opts();
+        o.auto_commit_threshold = 39;
+        o.disable_auto_learn_phrase = rng.chance(1, 2);
+        q.push_back(Op::SetOpts(o));
+        // the syllables outside the pool, as the Standard layout composes them
+        let extra: Vec<(Syllable, &[KeyCode])> = EXTRA
+            .iter()
+            .filter_map(|seq| {
+                let mut l = Standard::new();
+                let mut last = KeyBehavior::Ignore;
+                for c in seq.iter() {
+                    last = l.key_press(Qwerty.map(*c));
+                }
+                (last == KeyBehavior::Commit && !l.read().is_empty() && !pool.iter().any(|p| p.0 == l.read())).then(|| (l.read(), *seq))
+            })
+            .collect();
+        let mut ix: Vec<usize> = (0..pool.len()).collect();
+        for i in 0..5.min(ix.len()) {
+            let j = i + rng.below((ix.len() - i) as u64) as usize;
+            ix.swap(i, j);
+        }
+        let syl = |i: usize| pool[ix[i % ix.len()]].0;
+        let keys = |i: usize| pool[ix[i % ix.len()]].1.clone();
+        for (i, ch) in SINGLE.iter().enumerate() {
+            q.push_back(Op::Learn(vec![syl(i)], ch.to_string()));
+        }
+        if extra.is_empty() {
+            return Script { queue: q };
+        }
+        let (x, xkeys) = *rng.pick(&extra);
+        let xword = *rng.pick(&["祂", "囍", "𠀀"]);
+        q.push_back(Op::Learn(vec![x], xword.to_string()));
+        // neighbours with words in front / behind (at least one), the word-less-to-be syllable between them
+        let (mut before, after) = (rng.below(3) as usize, rng.below(3) as usize);
+        if before + after == 0 {
+            before = 1;
+        }
+        for _ in 0..before {
+            q.extend(keys(rng.below(5) as usize).into_iter().map(key));
+        }
+        q.extend(xkeys.iter().copied().map(key));
+        for _ in 0..after {
+            q.extend(keys(rng.below(5) as usize).into_iter().map(key));
+        }
+        let mut len = before + 1 + after;
+        // glue marks: the cursor onto the boundary in front of / behind the syllable, Tab
+        let glue = |q: &mut VecDeque<Op>, at: usize| {
+            q.push_back(key(Home));
+            for _ in 0..at {
+                q.push_back(key(Right));
+            }
+            q.push_back(key(Tab));
+        };
+        let sides: Vec<usize> = match (before > 0, after > 0, rng.below(4)) {
+            (true, true, 0) => vec![before, before + 1],
+            (true, true, 1) | (true, false, _) => vec![before],
+            _ => vec![before + 1],
+        };
+        let unlearn_first = rng.chance(1, 2);
+        if unlearn_first {
+            q.push_back(Op::Unlearn(vec![x], xword.to_string()));
+        }
+        for at in &sides {
+            glue(&mut q, *at);
+        }
+        if !unlearn_first {
+            q.push_back(Op::Unlearn(vec![x], xword.to_string()));
+        }
+        if rng.chance(1, 4) {
+            q.push_back(Op::SetEngine(*rng.pick(&[0u8, 1, 2])));
+        }
+        if rng.chance(1, 2) {
+            q.push_back(key(End));
+        }
+        let mut lim = o;
+        match rng.below(10) {
+            0..=3 => {
+                lim.auto_commit_threshold = len.saturating_sub(*rng.pick(&[0usize, 0, 1, 2]));
+                q.push_back(Op::SetOpts(lim));
+                q.extend(keys(rng.below(5) as usize).into_iter().map(key));
+                len = lim.auto_commit_threshold.min(len + 1);
+            }
+            4 | 5 => {
+                lim.auto_commit_threshold = rng.below(len as u64) as usize;
+                q.push_back(Op::SetOpts(lim));
+                // a list that opens: on a neighbour that has words
+                q.push_back(key(if after > 0 { End } else { Home }));
+                q.push_back(Op::StartSel);
+                q.push_back(Op::Select(0));
+                len = lim.auto_commit_threshold.min(len);
+            }
+            6 => {
+                lim.auto_commit_threshold = rng.below(len as u64) as usize;
+                q.push_back(Op::SetOpts(lim));
+                q.push_back(key(End));
+                q.push_back(key(Tab));
+                len = lim.auto_commit_threshold.min(len);
+            }
+            7 | 8 => {
+                q.push_back(key(Enter));
+                len = 0;
+            }
+            _ => {
+                q.push_back(Op::Commit);
+                len = 0;
+            }
+        }
+        // what remains goes out as a whole
+        q.push_back(Op::SetOpts(o));
+        if len > 0 {
+            q.push_back(if rng.chance(1, 2) { key(Enter) } else { Op::Commit });
+        }
+        Script { queue: q }
+    }
+
+    fn crossing(sid: u64, pool: &[(Syllable, Vec<KeyCode>)]) -> Script {
         use KeyCode::*;
         let mut rng = Rng::new(0xC02_u64.wrapping_mul(1_000_003).wrapping_add(sid));
         let mut q = VecDeque::new();
